@@ -61,6 +61,8 @@ def check(rep: Report, ctx: Ctx) -> None:
     r19(rep, ctx)
     r110(rep, ctx)
     r111(rep, ctx)
+    r112(rep, ctx)
+    r113(rep, ctx)
 
 
 def r18(rep: Report, ctx: Ctx) -> None:
@@ -718,3 +720,57 @@ def r111(rep: Report, ctx: Ctx) -> None:
     rep.ob("R1.11", "an edge registers the head under 'outgoing' of the tail "
            "and the tail under 'incoming' of the head", ok, fi=edge,
            node=ups[0] if ups else edge.node, detail=str(pairs))
+
+
+# --------------------------------------------------------------------------
+def r112(rep: Report, ctx: Ctx) -> None:
+    """Every job graph handed to the learner is ingested: the model is the
+    union over *all* jobs (also the premise of C04: chunked == one-shot)."""
+    rep.rule("R1.12", "every job graph of the stream is ingested (no job is "
+             "skipped on a run-local criterion)", 2)
+    outer = ctx.func("update_and_create_events_from_graph_solutions")
+    inner = ctx.func("update_and_create_events_from_graph_solution")
+    calls = calls_in(ctx, outer, inner)
+    p0 = outer.params()[0]
+    ok = len(calls) == 1
+    why = f"{len(calls)} call(s)"
+    if ok:
+        loops = enclosing(outer.node, calls[0], (ast.For,))
+        gs = cguards(ctx, outer, calls[0])
+        a0 = actual(calls[0], inner, inner.params()[0])
+        ok = len(loops) == 1 and isinstance(loops[0].iter, ast.Name) \
+            and loops[0].iter.id == p0 and ctx.defs(outer).only_param(p0) \
+            and not gs and isinstance(a0, ast.Name) and isinstance(
+                loops[0].target, ast.Name) and a0.id == loops[0].target.id \
+            and not any(isinstance(x, (ast.Break, ast.Return))
+                        for x in ast.walk(loops[0]))
+        why = (f"for g in {p0}: ingest(g)"
+               + ("" if not gs else " under "
+                  f"{[' '.join(g) for g in gs]} -- jobs that fail the test "
+                  "contribute nothing to the model (and whether they do "
+                  "depends on what the same run saw before)"))
+    rep.ob("R1.12", "the per-graph ingestion runs for every graph", ok,
+           fi=outer, node=calls[0] if calls else outer.node, detail=why)
+    gen = ctx.func("get_graph_solutions_from_clustered_events")
+    ys = [y for y in ast.walk(gen.node) if isinstance(y, ast.Yield)]
+    ok = len(ys) == 1
+    if ok:
+        gs = [g for g in cguards(ctx, gen, ys[0])]
+        lp = enclosing(gen.node, ys[0], (ast.For,))
+        ok = not gs and len(lp) == 1 and isinstance(lp[0].iter, ast.Name) \
+            and lp[0].iter.id == gen.params()[0]
+    rep.ob("R1.12", "one graph solution is yielded per job of the stream",
+           ok, fi=gen, node=ys[0] if ys else gen.node,
+           detail="for job_events in clustered_events: yield "
+                  "GraphSolution.from_event_list(job_events)")
+
+
+def r113(rep: Report, ctx: Ctx) -> None:
+    """(shared with C07 R7.11)  A loop whose end event fans out into several
+    events of one type on leaving the loop: the multiplicity is evidence the
+    dummy end of the body must inherit, else the diagram allows one such
+    event where the jobs had several."""
+    rep.rule("R1.13", "the exit fan-out of a loop's end events reaches the "
+             "body's dummy end (recorded before the exit edges are cut)", 1)
+    from .c07 import exit_fanout_recorded
+    exit_fanout_recorded(rep, ctx, "R1.13")
